@@ -9,7 +9,7 @@ import (
 
 func main() {
 	run := hlib.Start()
-	run.Rule = "rings of 1..N real LocalNodes built by Create/Join with adversarial ids (clustered, adjacent, 0, 2^48-1, finger targets), repaired to a fixpoint, then FindSuccessor from every member for member ids, ±1, 0, 2^48-1, finger targets and random keys; non-trivial = distinct (ring, start, key) on a ring of ≥ 2 members"
+	run.Rule = "rings of 1..N real LocalNodes built by Create/Join with adversarial ids (clustered, adjacent, 0, 2^48-1, finger targets), repaired to a fixpoint, then FindSuccessor from every member for member ids, ±1, 0, 2^48-1, finger targets and random keys; plus rings of 10..14 evenly spaced members from which a member that is only a finger of others leaves gracefully, repaired to a fixpoint again, then lookups judged against the true owner (ground truth, independent of the pointers); non-trivial = distinct (ring, start, key) on a ring of ≥ 2 members"
 	rng := hlib.NewRng(run.Seed)
 	if run.Replay != "" {
 		s := ringh.NewSession(run, rng)
@@ -25,6 +25,49 @@ func main() {
 	rings, maxN := 14, 12
 	if run.Thorough() {
 		rings, maxN = 60, 40
+	}
+	// directed: rings large enough that far fingers point beyond the successor list; a member that is only a
+	// finger of others leaves gracefully; once the repair rounds reach a fixpoint again ("the ring has
+	// stabilized") every member must answer every identifier with the true owner (lookupq: ground-truth oracle)
+	for d := 0; d < 2; d++ {
+		n := 10 + rng.Intn(5)
+		s := ringh.NewSession(run, rng)
+		base := rng.U64() % ringh.M
+		var ids []uint64
+		for i := 0; i < n; i++ {
+			ids = append(ids, (base+uint64(i)*(ringh.M/uint64(n))+uint64(rng.Intn(1000)))%ringh.M)
+		}
+		if d == 1 {
+			for i, j := 0, len(ids)-1; i < j; i, j = i+1, j-1 {
+				ids[i], ids[j] = ids[j], ids[i]
+			}
+		}
+		members := s.BuildRing(ids)
+		s.Repair(members, 12)
+		for k := 0; k < 2 && len(members) > 6 && !s.Dead; k++ {
+			l := hlib.Pick(rng, members)
+			if s.Do("leave", ringh.U(l)) != "ok" {
+				continue
+			}
+			var rest []uint64
+			for _, m := range members {
+				if m != l {
+					rest = append(rest, m)
+				}
+			}
+			members = rest
+			if s.Repair(members, 14) >= 14 {
+				run.Count("far-leave:no-fixpoint")
+				continue
+			}
+			for _, m := range members {
+				for _, key := range []uint64{(l + 1) % ringh.M, l, (l + ringh.M - 1) % ringh.M, (m + ringh.M/2) % ringh.M, (m + ringh.M/4) % ringh.M} {
+					s.Do("lookupq", ringh.U(m), ringh.U(key))
+					run.Case(hlib.F("far-leave|%v|%d|%d", members, m, key))
+				}
+			}
+			run.Count("directed:far-leave")
+		}
 	}
 	for i := 0; i < rings; i++ {
 		n := 1 + rng.Intn(maxN)
